@@ -8,6 +8,8 @@ cd "$(dirname "$0")"
 export CARGO_NET_OFFLINE=true
 export VERIF_DIR="$(pwd)"
 export VERIF_SEED="${VERIF_SEED:-1}"
+# one build directory, wherever this copy of /verif lives
+export CARGO_TARGET_DIR="$VERIF_DIR/target"
 mkdir -p work/bin work/log evidence replays
 if [ $# -lt 2 ]; then echo "usage: $0 <Cnn> <quick|thorough> | --replay <file>" >&2; exit 2; fi
 prop="$1"; arg="$2"
@@ -41,10 +43,10 @@ for round in $(seq 0 $((rounds-1))); do
       else
         gseed=$((VERIF_SEED + 1000*round))
       fi
-      ../target/debug/dv_gen "$gseed" generated/src/types.rs >>"../$log" 2>&1 || exit 2
+      "$CARGO_TARGET_DIR/debug/dv_gen" "$gseed" generated/src/types.rs >>"../$log" 2>&1 || exit 2
     fi
     cargo build -q -p "$pkg" >>"../$log" 2>&1 || exit 2
-    cp "../target/debug/$bin" "../work/bin/$bin.$$" || exit 2
+    cp "$CARGO_TARGET_DIR/debug/$bin" "../work/bin/$bin.$$" || exit 2
   )
   brc=$?
   flock -u 9
